@@ -408,6 +408,8 @@ class Interp:
             if isinstance(e.func, ast.Attribute) and e.func.attr in ('append', 'extend', 'pop', 'add'):
                 self.events.append((fn, [self.expr(a) for a in e.args]))
                 return OPQ
+            if isinstance(e.func, ast.Attribute):
+                self.expr(e.func.value)
             for a in e.args:
                 self.expr(a)
             return OPQ
